@@ -1,6 +1,6 @@
 """C18 configuration for ./check (see checks/propcfg.py for the keys)."""
 CFG = {
-    "modules": ["VaxisModel.Props.C18", "VaxisModel.Props.C18Bytes", "VaxisModel.Props.C18Links", "VaxisModel.Props.C18Terminal", "VaxisModel.Props.C18Delta", "VaxisModel.Props.C18DeltaBytes", "VaxisModel.Props.C18Reader", "VaxisModel.Props.C18Total", "VaxisModel.Props.C18Agree", "VaxisModel.Props.C18LinksIff",
+    "modules": ["VaxisModel.Props.C18", "VaxisModel.Props.C18Bytes", "VaxisModel.Props.C18Links", "VaxisModel.Props.C18Terminal", "VaxisModel.Props.C18Delta", "VaxisModel.Props.C18DeltaBytes", "VaxisModel.Props.C18Reader", "VaxisModel.Props.C18Total", "VaxisModel.Props.C18Agree", "VaxisModel.Props.C18Quirk", "VaxisModel.Props.C18LinksIff",
                 "VaxisModel.Witness.F118"],
     "extractors": ["C07", "C18", "C02"],
     "drivers": ["C18"],
